@@ -158,6 +158,43 @@ pub fn run(thorough: bool, seed: u64, _replay: Option<String>) -> Report {
             }
         }
     }
+    // --- matches as detection really builds them (with alternatives folded in): the alias list of a match is
+    //     the table entry of *its own* name, and every alias resolves to the codec of that name
+    let n_det = if thorough { 200 } else { 40 };
+    for k in 0..n_det {
+        let (_, t) = TEXTS[k % 19];
+        let e = *rng.pick(&["iso-8859-1", "windows-1252", "iso-8859-15", "iso-8859-2", "windows-1250", "windows-1251", "koi8-r", "iso-8859-7", "macintosh", "utf-8"]);
+        let bytes = enc_bytes(t, e).unwrap_or_else(|| t.as_bytes().to_vec());
+        let s = Sett::default();
+        if let Ok(Ok(ms)) = real_detect_raw(&bytes, &s) {
+            rep.evaluations += 1;
+            rep.oracle_checked += 1;
+            for m in ms.iter().flat_map(|m| std::iter::once(m).chain(m.submatch().iter())) {
+                rep.count(if m.has_submatch() { "oracle:aliases-of-match-with-alternatives" } else { "oracle:aliases-of-plain-match" });
+                let got = match catch_unwind(AssertUnwindSafe(|| m.encoding_aliases())) {
+                    Ok(a) => a,
+                    Err(_) => {
+                        rep.fail("oracle", "C18:aliases-panic", m.encoding(), &bytes, Some(&s), "detected");
+                        continue;
+                    }
+                };
+                let codec_n = encoding_from_whatwg_label(m.encoding());
+                for a in &got {
+                    if let Some(c) = iana_name(a) {
+                        let codec_c = encoding_from_whatwg_label(c);
+                        let same = match (&codec_c, &codec_n) {
+                            (Some(x), Some(y)) => x.name() == y.name(),
+                            _ => false,
+                        };
+                        if !same {
+                            rep.fail("oracle", "C18:alias-resolves-to-different-codec", &format!("match {} (alternatives {:?}): alias {} -> {} is another codec", m.encoding(), m.suitable_encodings(), a, c), &bytes, Some(&s), "detected");
+                            break;
+                        }
+                    }
+                }
+            }
+        }
+    }
     rep.sample(format!("reportable: {}", reportable.join(" ")));
     rep.sample(format!("spelling e.g. {:?} -> {:?}", spellings[spellings.len() - 1], iana_name(&spellings[spellings.len() - 1])));
     rep.model_rounds = drv.requests;
